@@ -117,14 +117,19 @@ def find_item(text, anchor, nth=1, start=0, end=None):
     after = start + idx[pos + len(a) - 1] + 1
     # next '{' outside comments (where clauses may sit in between)
     i = after
+    sq = 0  # depth of [ ] (array types such as [[E; N]] contain a `;`)
     while i < len(text):
         s = _skip_noncode(text, i)
         if s is not None:
             i = s
             continue
+        if text[i] == "[":
+            sq += 1
+        elif text[i] == "]":
+            sq = max(0, sq - 1)
         if text[i] == "{":
             break
-        if text[i] == ";":
+        if text[i] == ";" and sq == 0:
             raise ExtractError("anchor `%s` names an item without a body" % anchor)
         i += 1
     close = match_brace(text, i)
